@@ -293,6 +293,7 @@ _LOOP_CODES = {
     "Implfree-accepted-not-run-by-terminate": "free run: functions accepted before Terminate() had not all run when it returned",
     "Implfree-accepted-while-terminated": "free run: RunOnLoop/SetTimeout/SetInterval accepted work on a terminated loop that had not been started again",
     "Implfree-refused-after-restart": "free run: a restarted loop refused work",
+    "Implfree-scenario-did-not-finish": "free run: a scenario did not finish within 40 s (an API call never returned)",
     "Implfree-uncleared-timeout-never-ran": "free run: a short timeout set on a loop that was started and never stopped did not run",
 }
 _FREE = {
@@ -323,7 +324,7 @@ _LOOP_NOTE = ("Proof is about Model/Loop.v, a transition system over the 33 veri
 def _loop(profile, level_text, rule, relevant, assumptions):
     pid = {"overlap": "C03", "fifo": "C04", "timers": "C05", "count": "C06", "stop": "C07", "terminate": "C08"}[profile]
     return dict(harness="loop", extra_harness="loopfree", module="Cases.LoopCheck", env={"VERIF_PROFILE": profile}, overlay=True, shard=30, codes=_LOOP_CODES,
-                relevant=set(relevant) | set(_FREE[pid]) | {"Implhost-process-died"}, level_text=level_text, level_note=_LOOP_NOTE, rule=rule, trusted=_LOOP_TRUST,
+                relevant=set(relevant) | set(_FREE[pid]) | {"Implhost-process-died", "Implfree-scenario-did-not-finish"}, level_text=level_text, level_note=_LOOP_NOTE, rule=rule, trusted=_LOOP_TRUST,
                 assumptions=assumptions, harness_timeout=1500)
 
 
